@@ -35,7 +35,7 @@ def run(run, args):
     run.oblige("harness builds against /repo", ok, log[-400:] if not ok else "")
     if not ok:
         violation(run, {"broken": "correspondence harness does not build against /repo", "detail": log[-3000:]}, nofail=True)
-    source_tie(run, ("comp",))
+    source_tie(run, ("comp", "props"))
     rc, out, _ = make(["model/ArithCheck.vo"])
     if rc != 0:
         violation(run, {"broken": "model files do not build", "detail": out[-3000:]}, nofail=True)
